@@ -205,6 +205,7 @@ class Outcome:
     path: List[Tuple[str, bool]]
     node: Optional[ast.AST] = None
     exc: str = ""
+    ren: Dict[str, str] = field(default_factory=dict)   # atom identifications the path implies
 
 
 @dataclass
@@ -213,13 +214,14 @@ class Event:
     node: ast.AST
     data: Dict[str, Any]
     path: List[Tuple[str, bool]] = field(default_factory=list)
+    ren: Dict[str, str] = field(default_factory=dict)
 
 
 class Env(dict):
     def fork(self) -> "Env":
         e = Env()
         for k, v in self.items():
-            e[k] = copy.deepcopy(v) if isinstance(v, (DictV,)) else v
+            e[k] = copy.deepcopy(v) if isinstance(v, (DictV,)) else (dict(v) if k == "__ren__" else v)
         return e
 
 
@@ -306,6 +308,7 @@ class _EventList(list):
 
     def append(self, ev: Any) -> None:
         ev.path = list(getattr(self.owner, "cur_path", []))
+        ev.ren = dict(getattr(self.owner, "cur_ren", {}))
         super().append(ev)
 
 
@@ -326,6 +329,10 @@ class Interp:
         self.trace_inlined: List[str] = []
         self.globals: Dict[str, AV] = {}
         self.cur_path: List[Tuple[str, bool]] = []
+        self.choice_plan: List[int] = []
+        self.choice_log: List[int] = []
+        self.choice_notes: List[Tuple[str, List[Tuple[str, bool]]]] = []
+        self.active_ren: Dict[str, str] = {}
 
     # ------------------------------------------------------------ functions
     def run(self, qual: str, args: Dict[str, AV]) -> List[Outcome]:
@@ -342,6 +349,8 @@ class Interp:
         for p in fi.params():
             if p not in env:
                 env[p] = OpaqueV(f"unbound parameter {p}")
+        if self.depth == 0 and self.active_ren:
+            env["__ren__"] = dict(self.active_ren)
         return self.exec_block(fi, fi.node.body, 0, env, [])  # type: ignore[attr-defined]
 
     def exec_block(self, fi: FuncInfo, stmts: List[ast.stmt], i: int, env: Env,
@@ -350,6 +359,7 @@ class Interp:
             st = stmts[i]
             i += 1
             self.cur_path = list(path)
+            self.cur_ren = dict(env.get("__ren__", {}))
             if isinstance(st, ast.Expr):
                 if isinstance(st.value, ast.Constant):
                     continue
@@ -372,10 +382,10 @@ class Interp:
                 continue
             if isinstance(st, ast.Return):
                 v = self.eval(fi, st.value, env) if st.value is not None else NoneV()
-                return [Outcome("return", v, list(path), st)]
+                return [Outcome("return", v, list(path), st, ren=dict(env.get("__ren__", {})))]
             if isinstance(st, ast.Raise):
                 exc = ast.unparse(st.exc.func) if isinstance(st.exc, ast.Call) else (ast.unparse(st.exc) if st.exc else "")
-                return [Outcome("raise", None, list(path), st, exc)]
+                return [Outcome("raise", None, list(path), st, exc, ren=dict(env.get("__ren__", {})))]
             if isinstance(st, ast.Assert):
                 # an assert states a belief; the analysis keeps the true branch and records it
                 self.events.append(Event("assert", st, {"text": ast.unparse(st.test)}))
@@ -609,6 +619,22 @@ class Interp:
             op = test.ops[0]
             l, r = test.left, test.comparators[0]
             eq = (isinstance(op, (ast.Eq, ast.Is)) and t) or (isinstance(op, (ast.NotEq, ast.IsNot)) and not t)
+            if eq and not isinstance(r, ast.Constant):
+                # U is V for two units: one unit from here on (rename V's atoms to U's)
+                try:
+                    lv, rv = self.eval(fi, l, env), self.eval(fi, r, env)
+                except Unsupported:
+                    lv = rv = None
+                if isinstance(lv, UnitV) and isinstance(rv, UnitV) and not lv.same(rv):
+                    ren = _unit_renaming(rv, lv)
+                    if ren:
+                        for k in list(env.keys()):
+                            if k != "__ren__":
+                                env[k] = rename_av(env[k], ren)
+                        d = dict(env.get("__ren__", {}))
+                        d.update(ren)
+                        env["__ren__"] = d
+                        return
             if eq:
                 # X.base == 0  => X is the identity prefix;  X.base == Y.base => same base
                 if isinstance(l, ast.Attribute) and l.attr == "base" and isinstance(l.value, ast.Name):
@@ -1186,14 +1212,27 @@ class Interp:
             self.depth -= 1
         rets = [o for o in outs if o.kind == "return"]
         if len(rets) == 1:
+            self.active_ren.update(rets[0].ren)
             return rets[0].value
         if not rets:
             return OpaqueV(f"{target} never returns on this path")
-        # several feasible returns: keep them only if they agree
-        v0 = rets[0].value
-        if all(_same_av(v0, o.value) for o in rets[1:]):
-            return v0
-        return OpaqueV(f"{target} has {len(rets)} distinct return values under this abstraction")
+        # several feasible returns: a choice point explored by re-running the caller
+        distinct: List[Outcome] = []
+        for o in rets:
+            if not any(_same_av(o.value, d.value) for d in distinct):
+                distinct.append(o)
+        if len(distinct) == 1:
+            if len(rets) == 1:
+                self.active_ren.update(rets[0].ren)
+            return distinct[0].value
+        i = len(self.choice_log)
+        k = self.choice_plan[i] if i < len(self.choice_plan) else 0
+        self.choice_log.append(len(distinct))
+        if k >= len(distinct):
+            k = 0
+        self.choice_notes.append((target, distinct[k].path))
+        self.active_ren.update(distinct[k].ren)
+        return distinct[k].value
 
     # ---------------------------------------------------------- constructors
     def construct(self, fi: FuncInfo, node: ast.AST, cls: str, args: List[AV], kw: Dict[str, AV]) -> Optional[AV]:
@@ -1253,6 +1292,51 @@ class Interp:
                 return LevelV(mn, u)
             return OpaqueV("Level(non-abstract)")
         return None
+
+
+def _unit_renaming(src: UnitV, dst: UnitV) -> Dict[str, str]:
+    """atom renaming that makes unit `src` equal to `dst` when both are single atoms."""
+    ren: Dict[str, str] = {}
+    for gs, gd in ((src.p, dst.p), (src.f, dst.f), (src.d, dst.d)):
+        if len(gs.mono) == 1 and len(gd.mono) == 1 and gs.mono[0][1] == gd.mono[0][1] == Lin(1):
+            ren[gs.mono[0][0]] = gd.mono[0][0]
+        elif gs.mono != gd.mono:
+            return {}
+    return ren
+
+
+def _ren_mono(m: Mono, ren: Dict[str, str]) -> Mono:
+    out: Mono = ()
+    for a, e in m:
+        out = mono_mul(out, ((ren.get(a, a), e),))
+    return out
+
+
+def _ren_rat(r: Rat, ren: Dict[str, str]) -> Rat:
+    for a, b in ren.items():
+        if a in r.atoms():
+            r = r.subst(a, Rat.atom(b))
+    return r
+
+
+def ren_rat(r: Rat, ren: Dict[str, str]) -> Rat:
+    return _ren_rat(r, ren) if ren else r
+
+
+def rename_av(v: Any, ren: Dict[str, str]) -> Any:
+    if isinstance(v, GroupV):
+        return GroupV(v.kind, _ren_mono(v.mono, ren), set(v.flags), v.vec)
+    if isinstance(v, UnitV):
+        return UnitV(rename_av(v.p, ren), rename_av(v.f, ren), rename_av(v.d, ren), v.tag)
+    if isinstance(v, NumV):
+        return NumV(_ren_rat(v.rat, ren), rename_av(v.ut, ren) if v.ut is not None else None, v.decimalish)
+    if isinstance(v, QuantV):
+        return QuantV(rename_av(v.mag, ren), rename_av(v.unit, ren))
+    if isinstance(v, MeasV):
+        return MeasV(rename_av(v.measurand, ren), rename_av(v.uncertainty, ren))
+    if isinstance(v, DictV):
+        return DictV(rename_av(v.g, ren))
+    return v
 
 
 def _as_load(t: ast.AST) -> ast.AST:
